@@ -343,6 +343,47 @@ def rule_diameter_histories(ctx, rule='R15.s'):
                  'diameter, volume, sigma (both orders), the pair read and check()')
 
 
+def rule_total_no_stale_operand(ctx, rule='R15.c'):
+    """floating-point half of "nothing derived is stale after a re-assignment": the operations that produce `total` after a
+    type was re-assigned do not involve the value that was overwritten.  An incremental update `total += new - old` is the sum
+    of the current densities only in exact arithmetic; in floating point the overwritten value stays in the result as a
+    rounding residue of its own size (1e27 replaced by 0.8 leaves total = 0.0).  Decided by running the real setter in
+    uninterpreted arithmetic and listing the inputs of the resulting expression."""
+    cls = ctx.prog.cls(DENS)
+    m = cls.find_method('__setitem__')
+    n = 0
+    for labels, hist in ((('A',), (('A',), ('A',))), (('A', 'B'), (('A',), ('B',), ('A',))),
+                         (('A', 'B'), (('A', 'B'), ('B',))), (('A', 'B', 'C'), (('A',), ('B',), ('C',), ('B',), ('A',)))):
+        construct = '%s::total' % DENS
+        try:
+            r = Run(ctx.prog, DENS, labels)
+            r.ip.opaque_arith = True
+            for k in hist:
+                r.assign(k)
+            current = set()
+            for v_ in r.value.values():
+                current |= set(v_.symbols())
+            overwritten = {'v%d' % i for i in range(1, r.n + 1)} - current
+            tot = r.term(r.o.attrs.get('total', NONE))
+            if tot is None or P.is_pw(tot):
+                raise Unsupported('total is %s' % show(tot))
+            ins = N.opaque_inputs(tot)
+        except (Unsupported, Raised) as e:
+            ctx.undecided(rule, construct, '%s: %s' % (hist_name(hist), e), m.loc() if m else None)
+            continue
+        n += 1
+        stale = sorted(ins & overwritten)
+        if stale:
+            ctx.violation(rule, construct, 'stale-operand',
+                          'types %s, after %s: total is computed as %s -- the overwritten value %s takes part in the arithmetic, so it '
+                          'cancels only in exact arithmetic (catastrophic cancellation when it is much larger than the new densities)'
+                          % (list(labels), hist_name(hist), N.show_opaque(tot, 6)[:160], ', '.join(stale)), m.loc() if m else None)
+        else:
+            ctx.holds(rule, construct, 'types %s, after %s: total is computed from the current densities only (%s)' % (
+                list(labels), hist_name(hist), N.show_opaque(tot, 6)[:80]), m.loc() if m else None, key=hist_name(hist))
+    ctx.floor(rule, n, 4, 're-assignment histories run in uninterpreted arithmetic')
+
+
 def rule_checks(ctx, rule='R15.k'):
     """check() of both classes raises ValueError exactly while some type is unassigned (histories that leave each subset of
     the types unassigned; string and non-string labels)"""
